@@ -26,7 +26,7 @@ from lib import absint
 from lib import prog as P
 
 REC = ("parseVariant", "parseArray", "parseObject", "skipVariant", "skipArray", "skipObject")
-PREDS = ("isQuote", "canBeInNumber", "canBeInNonQuotedString", "isBetween", "decodeHex", "isdigit")
+PREDS = ("isQuote", "canBeInNumber", "canBeInNonQuotedString", "isBetween", "isdigit")  # decodeHex is opaque: its result only selects InvalidInput
 U, LNZ, LQ = "U", "Lnz", "L?"
 
 
@@ -43,7 +43,7 @@ class LI(absint.Interp):
         self.summ_cache = {}
         names = set()
         for f in prog.fns.values():
-            if f.cls.endswith("JsonDeserializer") and f.name not in REC and not f.d.get("ctor") and f.name not in ("current", "move", "parse"):
+            if f.cls.endswith("JsonDeserializer") and f.name not in REC and not f.d.get("ctor") and f.name not in ("current", "move", "parse", "decodeHex"):
                 names.add("JsonDeserializer::" + f.name)
         self.inline = tuple(sorted(names)) + tuple("::" + p_ for p_ in PREDS)
 
